@@ -4,7 +4,8 @@
 (*                                                                         *)
 (* Three modules: "main" (entry), "b", "c" ("c" may be missing).  Every    *)
 (* module has a private helper `h`, a private list `hist` and a global `x` *)
-(* (b may also define a type T = int, private or pub, which main may import *)
+(* (c may be "bare": no globals, no f, only h and pc - a module with       *)
+(* nothing to initialise; b may also define a type T = int, private or pub, which main may import *)
 (* and then uses as `let t: T = 5; println("t", t);`)                      *)
 (* (main: 10 unless it imports an `x`; b: 20; c: 30; in b and c private    *)
 (* or pub).  b and c have a pub entry `pb` / `pc`; the contested name is   *)
@@ -42,7 +43,7 @@ Exists(gr, m) == m # "c" \/ gr.hasc
 \* what module m defines, with its visibility
 Defined(gr, m, name) ==
     CASE name = "f" -> gr.f[m]
-      [] name = "x" -> IF m = "main" THEN "priv" ELSE gr.x[m]
+      [] name = "x" -> IF m = "main" THEN "priv" ELSE IF m = "c" /\ gr.cbare THEN "none" ELSE gr.x[m]
       [] name = "h" -> "priv"
       [] name = "pb" -> IF m = "b" THEN "pub" ELSE "none"
       [] name = "pc" -> IF m = "c" THEN "pub" ELSE "none"
@@ -111,7 +112,7 @@ CallLines(gr, m, name, hs, depth) ==
                     r == CallLines(gr, d, "h", hs1, depth + 1) IN
                 [lines |-> own \o r.lines, hist |-> r.hist]
            [] name \in {"pb", "pc"} ->
-                LET own == << <<d, "p", XVal(Resolve(gr, d, "x")), hs[d]>> >>
+                LET own == IF d = "c" /\ gr.cbare THEN << <<"c", "pbare">> >> ELSE << <<d, "p", XVal(Resolve(gr, d, "x")), hs[d]>> >>
                     r1 == CallLines(gr, d, "f", hs, depth + 1)
                     r2 == CallLines(gr, d, "h", r1.hist, depth + 1) IN
                 [lines |-> own \o r1.lines \o r2.lines, hist |-> r2.hist]
@@ -132,20 +133,22 @@ MainLines(gr) ==
 VisN(v) == CASE v = "none" -> 0 [] v = "priv" -> 1 [] v = "pub" -> 2
 BN(x) == IF x THEN 1 ELSE 0
 \* (the graph is chosen by an action, not in Init: TLC computes initial states on one thread)
-NoGraph == [f |-> [main |-> "none", b |-> "none", c |-> "none"], x |-> [b |-> "priv", c |-> "priv"], t |-> "none", hasc |-> FALSE,
+NoGraph == [f |-> [main |-> "none", b |-> "none", c |-> "none"], x |-> [b |-> "priv", c |-> "priv"], t |-> "none", hasc |-> FALSE, cbare |-> FALSE,
             imp |-> [main |-> {}, b |-> {}, c |-> {}]]
 Init == g = NoGraph /\ inited = <<>> /\ hist = [m \in Mods |-> 0] /\ out = <<>> /\ phase = "pick"
 Pick ==
     /\ phase = "pick"
-    /\ \E fm \in {"none", "priv"}, fb \in Vis, fc \in Vis, xb \in {"priv", "pub"}, xc \in {"priv", "pub"}, tb \in Vis, hc \in BOOLEAN :
+    /\ \E fm \in {"none", "priv"}, fb \in Vis, fc \in Vis, xb \in {"priv", "pub"}, xc \in {"priv", "pub"}, tb \in Vis, hc \in BOOLEAN, cb \in BOOLEAN :
+         \* (a bare c has no globals at all - nothing to initialise -, no f, and nothing but pc to import)
+         /\ cb => (hc /\ fc = "none" /\ xc = "priv")
          /\ (VisN(fb) + 3 * VisN(fc) + 9 * VisN(tb) + 27 * BN(hc) + 54 * BN(xb = "pub") + 108 * BN(xc = "pub") + 216 * VisN(fm)) % Slices = Slice
-         /\ g' = [NoGraph EXCEPT !.f = [main |-> fm, b |-> fb, c |-> fc], !.x = [b |-> xb, c |-> xc], !.t = tb, !.hasc = hc]
+         /\ g' = [NoGraph EXCEPT !.f = [main |-> fm, b |-> fb, c |-> fc], !.x = [b |-> xb, c |-> xc], !.t = tb, !.hasc = hc, !.cbare = cb]
     /\ phase' = "pick2" /\ UNCHANGED <<inited, hist, out>>
 PickImports ==
     /\ phase = "pick2"
     /\ \E im \in SUBSET { <<"f", "b">>, <<"x", "b">>, <<"f", "c">>, <<"x", "c">>, <<"h", "b">>, <<"T", "b">> },
-          ib \in SUBSET { <<"f", "c">> },
-          ic \in { {}, {<<"f", "b">>}, {<<"f", "main">>} } :
+          ib \in SUBSET { <<"f", "c">>, <<"pc", "c">> },
+          ic \in { S \in SUBSET { <<"f", "b">>, <<"f", "main">>, <<"pb", "b">> } : ~({<<"f", "b">>, <<"f", "main">>} \subseteq S) } :
          g' = [g EXCEPT !.imp = [main |-> im, b |-> ib, c |-> ic]]
     /\ phase' = "init" /\ UNCHANGED <<inited, hist, out>>
 
@@ -182,7 +185,7 @@ ResolvesToDefiningModule ==
         LET d == Resolve(g, m, n) IN d # "" => Defined(g, d, n) # "none"
 
 Finished == phase \in {"done", "rejected"}
-Export == Finished => PrintT(<<"CASE", ToJson([g |-> [f |-> g.f, x |-> g.x, t |-> g.t, hasc |-> g.hasc,
+Export == Finished => PrintT(<<"CASE", ToJson([g |-> [f |-> g.f, x |-> g.x, t |-> g.t, cbare |-> g.cbare, hasc |-> g.hasc,
                                                       imp |-> [m \in Mods |-> SetToSeq(g.imp[m])]],
                                                accepted |-> Accepted(g), unspecified |-> Unspecified(g), errors |-> SetToSeq(AllErrors(g)),
                                                out |-> IF Accepted(g) /\ ~Unspecified(g) THEN MainLines(g) ELSE <<>>])>>)
